@@ -24,6 +24,10 @@ struct Params {
     hash_key: u64,
     /// what a broken connection answers writes with: 0 BrokenPipe, 1 ConnectionReset, 2 TimedOut
     err_kind: u8,
+    /// 255 = never; k = right after publish #k the slow subscribers' READ side ends cleanly (a half-close: the peer
+    /// has shut down its sending direction) while their connections stay in whatever write mode they are in - stalled,
+    /// with a backlog. The publisher must go on returning and the healthy subscriber must miss nothing.
+    eof_after: u8,
 }
 
 fn publish_msg(i: usize, size: usize) -> Vec<Vec<u8>> {
@@ -55,6 +59,7 @@ fn scenario(pr: &Params) -> Verdict {
     let obs = std::rc::Rc::new(std::cell::RefCell::new(Vec::<StepObs>::new()));
     let obs2 = obs.clone();
     let (slow2, msgs2, sent2, modes) = (slow.clone(), msgs.clone(), sentinels.clone(), pr.modes.clone());
+    let eof_after = pr.eof_after;
     let err_kind = pr.err_kind;
     let hs_len = std::rc::Rc::new(std::cell::Cell::new(0usize));
     let hs_len2 = hs_len.clone();
@@ -105,6 +110,17 @@ fn scenario(pr: &Params) -> Verdict {
                 world::log(format!("publish#{} never completed while the slow connection made no progress", i));
                 return;
             }
+            if i as u8 == eof_after {
+                for c in &slow2 {
+                    c.eof();
+                }
+                // the publisher's reader tasks (PUB) see the end; an XPUB sees it in its next recv
+                if ty == Ty::XPub {
+                    let _ = world::until_idle(sock.recv()).await;
+                } else {
+                    world::idle().await;
+                }
+            }
         }
         // open the pipe; sentinel publishes give the best-effort flush a chance
         if !broken {
@@ -124,11 +140,12 @@ fn scenario(pr: &Params) -> Verdict {
     let mut v = Verdict::default();
     v.truncated = end != world::RunEnd::Quiescent;
     let what = format!(
-        "{} with {} slow + 1 healthy subscriber, publishes of sizes {:?}, slow connection mode per publish {:?} (0 open, 1 stalled, 2 accepts 1000 B then stalls, 3 broken)",
+        "{} with {} slow + 1 healthy subscriber, publishes of sizes {:?}, slow connection mode per publish {:?} (0 open, 1 stalled, 2 accepts 1000 B then stalls, 3 broken){}",
         ty.name(),
         n_slow,
         pr.sizes.iter().map(|s| SIZES[*s as usize]).collect::<Vec<_>>(),
-        pr.modes
+        pr.modes,
+        if pr.eof_after != 255 { format!(", the slow subscriber's read side ending (half-close) right after publish #{}", pr.eof_after) } else { String::new() }
     );
     for p in world::panics() {
         v.violate("panic", format!("{}: {}", what, p));
@@ -142,7 +159,8 @@ fn scenario(pr: &Params) -> Verdict {
         v.outcome_hash = 1;
         return e3::finish(v);
     }
-    let broken = pr.modes.contains(&3);
+    // (a subscriber whose read side has ended is gone as far as its own stream is concerned)
+    let broken = pr.modes.contains(&3) || pr.eof_after != 255;
     let mut all_published: Vec<Vec<Vec<u8>>> = msgs.clone();
     all_published.extend(sentinels.clone());
     // healthy subscriber misses none
@@ -216,7 +234,7 @@ fn scenario(pr: &Params) -> Verdict {
 }
 
 fn pj(p: &Params) -> Value {
-    json!({"type": p.ty.name(), "modes": p.modes, "sizes": p.sizes, "two_slow": p.two_slow, "policy": p.bound_policy, "hash_key": p.hash_key, "err_kind": p.err_kind})
+    json!({"type": p.ty.name(), "modes": p.modes, "sizes": p.sizes, "two_slow": p.two_slow, "policy": p.bound_policy, "hash_key": p.hash_key, "err_kind": p.err_kind, "eof_after": p.eof_after})
 }
 
 fn pf(v: &Value) -> Option<Params> {
@@ -229,6 +247,7 @@ fn pf(v: &Value) -> Option<Params> {
         bound_policy: v["policy"].as_u64().unwrap_or(0) as u8,
         hash_key: v["hash_key"].as_u64().unwrap_or(0),
         err_kind: v["err_kind"].as_u64().unwrap_or(0) as u8,
+        eof_after: v["eof_after"].as_u64().unwrap_or(255) as u8,
     })
 }
 
@@ -289,7 +308,7 @@ pub fn run(tier: Tier, replay: Option<String>) -> i32 {
                     // a connection that breaks: also with the other error kinds a write can fail with
                     let kinds: Vec<u8> = if s.contains(&3) { vec![0, 1, 2] } else { vec![0] };
                     for err_kind in kinds {
-                        let pr = Params { ty, modes: s.clone(), sizes: prof.clone(), two_slow: false, bound_policy: 0, hash_key, err_kind };
+                        let pr = Params { ty, modes: s.clone(), sizes: prof.clone(), two_slow: false, bound_policy: 0, hash_key, err_kind, eof_after: 255 };
                         let pr2 = pr.clone();
                         n += 1;
                         jobs.push(e3::job(format!("C12/{}/{:?}/{:?}/key{}/err{}", ty.name(), prof, s, hash_key, err_kind), pj(&pr), 0, 1000, move || scenario(&pr2)));
@@ -308,10 +327,23 @@ pub fn run(tier: Tier, replay: Option<String>) -> i32 {
                 if !two && tier == Tier::Quick {
                     continue;
                 }
-                let pr = Params { ty, modes: s.clone(), sizes: profiles[0].clone(), two_slow: two, bound_policy: 0, hash_key: 0, err_kind: 0 };
+                let pr = Params { ty, modes: s.clone(), sizes: profiles[0].clone(), two_slow: two, bound_policy: 0, hash_key: 0, err_kind: 0, eof_after: 255 };
                 let pr2 = pr.clone();
                 n += 1;
                 jobs.push(e3::job(format!("C12/{}/dev/{:?}/{}", ty.name(), s, two), pj(&pr), 1, 5000, move || scenario(&pr2)));
+            }
+        }
+    }
+    // a stalled subscriber with a backlog half-closes
+    for ty in [Ty::Pub, Ty::XPub] {
+        for modes in [vec![2u8, 1, 1, 1, 1, 1], vec![1, 1, 1, 1, 1, 1], vec![2, 2, 1, 1, 0, 0], vec![0, 2, 1, 1, 1, 1]] {
+            for eof_after in 0..4u8 {
+                for hash_key in 0..2u64 {
+                    let pr = Params { ty, modes: modes.clone(), sizes: vec![1; 6], two_slow: hash_key == 1, bound_policy: 0, hash_key, err_kind: 0, eof_after };
+                    let pr2 = pr.clone();
+                    n += 1;
+                    jobs.push(e3::job(format!("C12/{}/half-close/{:?}/after{}/key{}", ty.name(), modes, eof_after, hash_key), pj(&pr), tier.pick(1, 2), 20_000, move || scenario(&pr2)));
+                }
             }
         }
     }
